@@ -120,8 +120,34 @@ def same(a, b, dense):
     return M.num_eq(a, b) or (a != a and b != b)
 
 
+def _defined(sc):
+    dense = sc['dense']
+    for seq in (sc['pre'] + sc['post'], sc['post'], sc['pre']):
+        if not seq:
+            continue
+        if dense:
+            sig = dict((v, []) for v in sc['vars'])
+            for u in seq:
+                for v in sc['vars']:
+                    for smp in u[v]:
+                        if not sig[v] or smp[0] > sig[v][-1][0]:
+                            sig[v].append(smp)
+            if any(not sig[v] for v in sc['vars']):
+                continue
+            ok = common.ref_defined([sc['ast']], True, sig)
+        else:
+            data = dict((v, [u[1][v] for u in seq]) for v in sc['vars'])
+            ok = common.ref_defined([sc['ast']], False, data, len(seq))
+        if not ok:
+            return False
+    return True
+
+
 def run(sc):
     r = Result()
+    if not _defined(sc):
+        r.discarded = True
+        return r
     desc = spec_desc(sc)
     dense = sc['dense']
     pre, post = sc['pre'], sc['post']
